@@ -1069,9 +1069,9 @@ use crate::{ChunkSize, NumThreads, Par, Params};
                 b.append('    kani::assume(cl.lt[0] == 0 && cl.lt[1] == 0 && cl.lt[2] == 0 && cl.lt[3] == 0);')
             b.append('    let p0 = any_params();')
             b.append('    let x = source(it, p0)%s;' % pc)
-            b.append('    assert!(x.params() == p0, "C12,C16: params() does not report the values set on the source after building %s");' % typ)
+            b.append('    assert!(x.params() == p0, "C08,C09,C12,C16: params() does not report the values set on the source after building %s");' % typ)
             b.append('    let y = x%s;' % call)
-            b.append('    assert!(y.params() == p0, "C12,C16: %s::%s altered the parameters");' % (typ, meth))
+            b.append('    assert!(y.params() == p0, "C08,C09,C12,C16: %s::%s altered the parameters");' % (typ, meth))
             b.append('    assert!(!log.any_call() && log.source_untouched(), "C16: %s::%s ran a user closure or consumed the source before the terminal call");' % (typ, meth))
             b.append('    kani::cover!(p0.num_threads != NumThreads::Auto && p0.chunk_size != ChunkSize::Auto);')
             b.append('}\n')
@@ -1079,7 +1079,7 @@ use crate::{ChunkSize, NumThreads, Par, Params};
             if (chain, meth) in LAZY_INTRACTABLE:
                 out.pop()
                 continue
-            HARNESSES[name] = dict(kernel='api', family='lazy', props=['C12', 'C16'], tier='quick', bounded=eager,
+            HARNESSES[name] = dict(kernel='api', family='lazy', props=['C12', 'C16'] + (['C08', 'C09'] if eager else []), tier='quick', bounded=eager,
                                    path='core::verif_kani::h_lazy::%s' % name, shape=dict(type=typ, method=meth, eager_site=eager),
                                    covers_expected=1 if not eager else None, covers_min=0 if eager else None,
                                    bound=('loop-free: fully symbolic Params, any source contents' if not eager else
@@ -1097,11 +1097,11 @@ use crate::{ChunkSize, NumThreads, Par, Params};
             b.append('    let cl = Cl::any(&log);')
             b.append('    let p0 = par_params(2, 1);')
             b.append('    let y = source(it, p0)%s%s;' % (pc, call))
-            b.append('    assert!(y.params() == p0, "C12,C16: %s::%s altered the parameters");' % (typ, meth))
+            b.append('    assert!(y.params() == p0, "C08,C09,C12,C16: %s::%s altered the parameters");' % (typ, meth))
             b.append('    kani::cover!(log.pulls.get() >= 1);')
             b.append('}\n')
             out.append('\n'.join(b))
-            HARNESSES[name] = dict(kernel='api', family='order', props=['C01', 'C02', 'C12'], tier='quick', bounded=True,
+            HARNESSES[name] = dict(kernel='api', family='order', props=['C01', 'C02', 'C12', 'C08', 'C09'], tier='quick', bounded=True,
                                    path='core::verif_kani::h_lazy::%s' % name, shape=dict(type=typ, method=meth, eager_site=True, params='Max(2), Exact(1)'),
                                    covers_expected=1,
                                    bound='eager site over an empty source with parallel parameters: which collect kernel the materialisation goes through')
